@@ -66,6 +66,8 @@ def item_lists(maxlen):
         for t in itertools.product(atoms, repeat=n):
             if ok(t):
                 out.append([list(x) for x in t])
+    # text items whose UTF-8 encoding is longer than their character count
+    out += [[['s', 'é']], [['s', 'a'], ['s', '€ü']], [['s', ''], ['s', 'é'], ['s', 'a']]]
     return out
 
 
